@@ -18,7 +18,7 @@ from harness.lib import common
 PROP = 'C08'
 PROP_FILE = 'Props/C08.v'
 THEOREMS = ['C08_segmentation_independent', 'C08_connection_state_independent', 'C08_matches_reference',
-            'C08_lockstep', 'C08_truncated_is_error']
+            'C08_lockstep', 'C08_truncated_is_error', 'C08_no_content_codes_are_the_sources']
 TRUSTED = [
     'hand-written model coq/Model/{PyText,Chunked,HttpMsg}.v + coq/Lib/Conn.v (asyncio.StreamReader.read/readline, 64 KiB line limit) of '
     'wpull/protocol/http/{stream,chunked,request,util}.py, wpull/namevalue.py, wpull/network/connection.py: tied to the code by the '
@@ -617,6 +617,12 @@ def observable(ex):
     if ex['error']:
         return ('error', ex['error'])
     return ('ok', ex['status'], tuple(map(tuple, ex['fields'])), ex['body'])
+
+
+def pregen(ctx):
+    """regenerate coq/Gen/Consts.v (constant tables of the source tree the model hard-codes) from the working tree"""
+    from harness.translate import consts
+    return consts.generate(ctx.repo)
 
 
 def _surplus_arrived_with_body(m, cuts, msg_len):
